@@ -25,6 +25,8 @@ func main() {
 		i, _ := strconv.Atoi(os.Args[4])
 		n, _ := strconv.Atoi(os.Args[5])
 		engine.RunShard(os.Args[2], os.Args[3], i, n, os.Args[6])
+	case "cold":
+		os.Exit(props.ColdMain(os.Args[2]))
 	case "race":
 		os.Exit(props.RaceMain(os.Args[2]))
 	case "replay":
